@@ -38,7 +38,19 @@ type Env struct {
 // NewEnv creates an empty database of the given kind.
 func NewEnv(kind int) *Env {
 	e := &Env{Kind: kind, Disk: rawdb.NewMemoryDatabase()}
-	switch kind {
+	e.openTDB()
+	mdb := state.NewMPTDatabase(e.TDB, nil)
+	if kind == DBHashSnap {
+		e.Snaps, _ = snapshot.New(snapshot.Config{CacheSize: 1}, e.Disk, e.TDB, types.EmptyRootHash)
+		e.DB = mdb.WithSnapshot(e.Snaps)
+	} else {
+		e.DB = mdb
+	}
+	return e
+}
+
+func (e *Env) openTDB() {
+	switch e.Kind {
 	case DBHash, DBHashSnap:
 		e.TDB = triedb.NewDatabase(e.Disk, &triedb.Config{HashDB: hashdb.Defaults})
 	case DBPath:
@@ -49,14 +61,35 @@ func NewEnv(kind int) *Env {
 			WriteBufferSize: 4096, NoAsyncFlush: true, TrienodeHistory: -1,
 		}})
 	}
+}
+
+// Reopen persists the state at root (triedb.Commit), throws the trie database (and snapshot
+// tree) away and opens new ones over the same key-value store, as a restarted node would.
+// persisted tells that triedb.Commit(root) has been done already (the path scheme refuses to
+// commit its disk layer again).
+func (e *Env) Reopen(root common.Hash, persisted bool) error {
+	if !persisted {
+		if err := e.TDB.Commit(root, false); err != nil {
+			return err
+		}
+	}
+	if e.Snaps != nil {
+		e.Snaps.Release()
+		e.Snaps = nil
+	}
+	if err := e.TDB.Close(); err != nil {
+		return err
+	}
+	e.openTDB()
 	mdb := state.NewMPTDatabase(e.TDB, nil)
-	if kind == DBHashSnap {
-		e.Snaps, _ = snapshot.New(snapshot.Config{CacheSize: 1}, e.Disk, e.TDB, types.EmptyRootHash)
+	if e.Kind == DBHashSnap {
+		// no snapshot journal was written: the tree is regenerated from the trie at root
+		e.Snaps, _ = snapshot.New(snapshot.Config{CacheSize: 1}, e.Disk, e.TDB, root)
 		e.DB = mdb.WithSnapshot(e.Snaps)
 	} else {
 		e.DB = mdb
 	}
-	return e
+	return nil
 }
 
 // Close releases the database.
